@@ -93,6 +93,9 @@ pub fn profile(name: &str) -> Option<Profile> {
         "forget" => Profile { name: "forget", universe: 7, len: 50, w: [40, 5, 8, 6, 4, 2, 2, 2, 30, 1, 0, 0], allow_consume: true, forget: true, ..base },
         "clone" => Profile { name: "clone", universe: 8, len: 90, w: [30, 6, 12, 10, 10, 3, 5, 2, 2, 1, 8, 1], max_caches: 3, ..base },
         "order" => Profile { name: "order", universe: 9, len: 100, w: [20, 8, 40, 6, 12, 1, 4, 2, 3, 0, 0, 3], ..base },
+        // limits above usize::MAX / 2 and sizes of the same magnitude: every sum `a + b` of two sizes that the
+        // code might form instead of a difference overflows here (sizes of pairs that exist still fit usize)
+        "extreme" => Profile { name: "extreme", universe: 4, len: 40, w: [30, 30, 8, 8, 14, 6, 1, 1, 1, 1, 0, 0], ..base },
         "panic" => Profile { name: "panic", universe: 6, len: 40, w: [30, 10, 14, 10, 14, 4, 8, 8, 0, 1, 4, 0], max_caches: 2, panics: true, ..base },
         _ => return None,
     })
@@ -107,6 +110,17 @@ pub struct Gen<'a> {
 impl<'a> Gen<'a> {
     pub fn limit(&mut self) -> usize {
         let o = self.ovh;
+        if self.prof.name == "extreme" {
+            return match self.rng.below(7) {
+                0 => usize::MAX,
+                1 => usize::MAX - 1,
+                2 => usize::MAX / 2 + 1 + self.rng.below(3 * o as u64) as usize,
+                3 => 1 << 63,
+                4 => (1 << 63) + o,
+                5 => usize::MAX - o,
+                _ => usize::MAX / 2 + (1 << 61),
+            };
+        }
         if self.prof.name == "huge" {
             return match self.rng.below(3) {
                 0 => usize::MAX,
@@ -192,6 +206,20 @@ impl<'a> Gen<'a> {
             free.checked_sub(o).and_then(|x| x.checked_sub(1)),
             Some(self.rng.below(40) as usize),
         ];
+        if self.prof.name == "extreme" {
+            // the size of the pair itself must exist (A-sizes): key heap + value heap + overhead <= usize::MAX
+            let top = usize::MAX - o - 64;
+            let c = match self.rng.below(16) {
+                i @ 0..=9 => cands[i as usize],
+                10 => Some(1 << 62),
+                11 => Some(1 << 63),
+                12 => Some(usize::MAX / 2),
+                13 => Some(usize::MAX / 2 - o),
+                14 => Some(top),
+                _ => Some(self.rng.below(40) as usize),
+            };
+            return c.unwrap_or(0).min(top);
+        }
         if self.rng.chance(1, 2) {
             let c = cands[self.rng.below(10) as usize];
             if let Some(x) = c {
@@ -272,6 +300,12 @@ impl<'a> Gen<'a> {
                     (Some(e), 0) => e.v.heap,
                     (Some(e), 1) => e.v.heap / 2,
                     _ => self.value_heap(snap, kh, Some(old)),
+                };
+                // A-sizes: the total may not pass usize::MAX while the grown value is accounted for
+                // (`current_size += diff` happens before the eviction)
+                let h = match e {
+                    Some(e) if self.prof.name == "extreme" => h.min(e.v.heap.saturating_add(usize::MAX - snap.cur)),
+                    _ => h,
                 };
                 if self.rng.chance(1, 4) {
                     OpKind::MutRep { id, h, tok: kt }
